@@ -491,3 +491,47 @@ def _dt_eq(s, o):
     if not builtins.isinstance(o, DT): return False
     return s.sec == o.sec
 DT.__eq__ = _dt_eq
+_chk0 = Engine.check
+def _chk(s, *extra):
+    t = time.time(); r = _chk0(s, *extra); d = time.time() - t
+    if d > 2 or r == z3.unknown: print("  slow/unknown query", r, round(d, 1), flush=True)
+    return r
+Engine.check = _chk
+
+# --- integer parts of reals are concretised through REAL interval constraints (keeps queries in QF_NRA)
+import math as _math
+def _conc_floor(s, e):
+    e = z3.simplify(e)
+    if z3.is_rational_value(e): return _math.floor(fractions.Fraction(e.numerator_as_long(), e.denominator_as_long()))
+    if s.pos < len(s.script):
+        kind, val = s.script[s.pos]
+        if kind == "fl":
+            s.pos += 1; c = z3.And(e >= val, e < val + 1); s.solver.add(c); s.pc.append(c); return val
+        excluded = list(val); assert kind == "nf" and s.pos == len(s.script) - 1; s.script.pop()
+    else: excluded = []
+    for x in excluded:
+        c = z3.Or(e < x, e >= x + 1); s.solver.add(c); s.pc.append(c)
+    if s.check() != z3.sat: raise Abort()
+    mv = s.solver.model().eval(e, model_completion=True)
+    mv = z3.simplify(mv)
+    if z3.is_algebraic_value(mv): mv = mv.approx(20)
+    v = _math.floor(fractions.Fraction(mv.numerator_as_long(), mv.denominator_as_long()))
+    if s.check(z3.Or(e < v, e >= v + 1)) == z3.sat:
+        s.pending.append(s.script[:s.pos] + [("nf", excluded + [v])])
+    s.script.append(("fl", v)); s.pos += 1
+    c = z3.And(e >= v, e < v + 1); s.solver.add(c); s.pc.append(c)
+    return v
+Engine.conc_floor = _conc_floor
+def _trunc(s):
+    if s.isint: return s
+    if E.fork(s.e >= 0): return SN.of(E.conc_floor(s.e))
+    return SN.of(-E.conc_floor(-s.e))
+SN.trunc = _trunc
+def _rint(s):
+    if s.isint: return s
+    f = E.conc_floor(s.e); r = s.e - f
+    if E.fork(r < z3.RealVal("1/2")): v = f
+    elif E.fork(r > z3.RealVal("1/2")): v = f + 1
+    else: v = f if f % 2 == 0 else f + 1
+    return SN(z3.RealVal(v))
+SN.rint = _rint
